@@ -116,10 +116,16 @@ class C20(Prop):
     def _pair(self, a, b):
         from preflibtools.properties import distances as D
         a, b = tuple(a), tuple(b)
+        # the normalised call comes first and the keyword calls last: an earlier call on the same pair
+        # must not change what the plain call returns
         return {
+            "ktn": _res(call(D.kendall_tau_distance, a, b, normalise=True)),
             "kt": _res(call(D.kendall_tau_distance, a, b)),
             "fr": _res(call(D.spearman_footrule_distance, a, b)),
             "se": _res(call(D.sertel_distance, a, b)),
+            "kw_kt": _res(call(D.kendall_tau_distance, order1=a, order2=b)),
+            "kw_fr": _res(call(D.spearman_footrule_distance, order1=a, order2=b)),
+            "kw_se": _res(call(D.sertel_distance, order2=b, order1=a)),
         }
 
     def run_impl(self, case):
@@ -170,12 +176,29 @@ class C20(Prop):
     def _cmp_pair(self, case, tag, a, b, impl, mod, out):
         """impl vs model and vs spec for one ordered pair"""
         same = mod["same"]
-        for name in ("kt", "fr", "se"):
-            iv, mv = impl[name], mod[name]
-            site = f"{name}"
+        # normalised Kendall-tau (outside the statement of C20: a difference is a model/code disagreement)
+        m = len(a)
+        if len(a) != len(b) or mod["kt"] is None:
+            expn = ("exc", "ValueError")
+        elif m < 2:
+            expn = ("exc", "ZeroDivisionError")
+        else:
+            expn = ("ok", mod["kt"] / (m * (m - 1) // 2))
+        if impl.get("ktn", expn) != expn:
+            out.append(Problem("disagreement", case, f"kt({tag}, normalise=True): implementation {impl['ktn']}, "
+                               f"model {expn}", "ktn/value"))
+        for key in ("kt", "fr", "se", "kw_kt", "kw_fr", "kw_se"):
+            name = key[-2:]
+            if key not in impl:
+                continue
+            iv, mv = impl[key], mod[name]
+            if key.startswith("kw_") and iv == ("exc", "TypeError"):
+                continue        # parameters renamed: the keyword form is not available
+            site = f"{name}" + ("/keywords" if key.startswith("kw_") else "")
+            t = ("order1=" + tag.replace(",", ", order2=")) if key.startswith("kw_") else tag
             if len(a) != len(b):
                 if iv != ("exc", "ValueError"):
-                    out.append(Problem("violation", case, f"{name}({tag}): rankings of different length "
+                    out.append(Problem("violation", case, f"{name}({t}): rankings of different length "
                                        f"must be refused with ValueError, got {iv}", site + "/length"))
                 continue
             if mv is None:
@@ -188,14 +211,14 @@ class C20(Prop):
                 # inside the property's domain: the model is proved equal to the spec
                 if iv != exp:
                     out.append(Problem("violation", case,
-                                       f"{name}({tag}) = {iv}, specification requires {exp}"
+                                       f"{name}({t}) = {iv}, specification requires {exp}"
                                        + (f" (pairs ordered differently: {mod['dis']})" if name == "kt" else ""),
                                        site + "/value"))
                 if name == "kt" and mv != mod["dis"]:
                     out.append(Problem("disagreement", case, "model kt differs from spec dis", "model/kt"))
             else:
                 if iv != exp:
-                    out.append(Problem("disagreement", case, f"{name}({tag}): implementation {iv}, model {exp}",
+                    out.append(Problem("disagreement", case, f"{name}({t}): implementation {iv}, model {exp}",
                                        site + "/outside-domain"))
 
     def judge(self, case, obs, replies):
